@@ -90,7 +90,10 @@ def run_case(spec):
             hooks = {n: [rnd.choice(OUT), rnd.random() < .5] for n in names}
             reqs = [rnd.choice(['start', 'stop', 'restart', 'signal:15', 'signal:9', 'kill', 'reload'])
                     for _ in range(rnd.randint(1, 3))]
-            run_one(mk(hooks, rnd.random() < .5, rnd.choice([1, 2]), autostart=rnd.random() < .5), reqs, res)
+            hh = mk(hooks, rnd.random() < .5, rnd.choice([1, 2]), autostart=rnd.random() < .5)
+            if rnd.random() < .3:
+                hh['clock'] = [rnd.randint(1, 20), rnd.choice([-3600.0, 3600.0, 86400.0, -5.0])]
+            run_one(hh, reqs, res)
     return res
 
 
@@ -140,6 +143,9 @@ def _one(w, h, reqs, res):
     for req in reqs:
         if w.stalled is not None:
             break
+        if h.get('clock'):
+            coff, delta = h['clock']
+            k.inject[k.calls + coff] = lambda kern, delta=delta: setattr(w.clock, 'wall_offset', w.clock.wall_offset + delta)
         l0 = len(k.log)
         live0 = k.live(tag)
         status0 = simhist.reported_status(w, 'a')
